@@ -242,6 +242,21 @@ def cases(tier, rng):
     for _ in range(nrand // 5):
         f = rng.choice(("b", "x"))
         add("random", "%s %s %s" % (rng.choice(("square", "slowsq", "fastsq")), f, grp(poly(rng, f, rng.randrange(0, 80)))))
+    # operands that share memory: two borrowed polynomials over prefixes of ONE buffer (same start address, different
+    # lengths), and the very same object on both sides of a by-reference product
+    for f in ("b", "x"):
+        for deg in (0, 2, 5, 9):
+            a = poly(rng, f, deg)
+            n = deg + 1
+            for (i, j) in sorted({(0, n), (n, 0), (1, n), (n, 1), (deg, n), (n, deg), (n, n), (1, 1), (n // 2, n), (n, n // 2)}):
+                for sub in ("mul", "multiply", "naive", "fast"):
+                    add("alias", "alias %s %s %d %d | %s" % (f, sub, i, j, grp(a, 0, True)))
+        for deg in (-1, 0, 1, 3, 40, 130, 260):
+            if deg > 100 and f == "x" and not big:
+                continue
+            a = poly(rng, f, deg)
+            for sub in ("multiply", "naive", "fast", "batch"):
+                add("same-object", "same %s %s | %s" % (f, sub, grp(a)))
     return out
 
 
